@@ -69,7 +69,7 @@ Proof.
   - destruct (y =? x) eqn:E; auto. left. apply UA. now apply Z.eqb_neq.
   - left; reflexivity.
   - apply RC.
-  - left. unfold va. now rewrite unreg_comp_agents.
+  - left. unfold va. now rewrite catch_S, unreg_comp_agents.
   - left; reflexivity.
   - destruct b; cbn [disc_recv]; left; unfold va; [now rewrite reg_rep_agents|now rewrite unreg_rep_agents].
   - left; reflexivity.
